@@ -33,6 +33,8 @@ type Case struct {
 	FromRoot bool     `json:"from_root,omitempty"`
 	Alias   bool      `json:"alias,omitempty"` // use the deprecated alias
 	Note    string    `json:"note,omitempty"`
+	ErrOnly bool      `json:"compare_error_only,omitempty"` // invalid UTF-8 names: encoders substitute U+FFFD (library behaviour)
+	Texts   []string  `json:"item_texts,omitempty"` // item text of every non-blank row (for the no-silent-loss check)
 }
 
 func newCase(kind string) Case {
@@ -65,6 +67,12 @@ func parseTreeEnc(s string) *Tree {
 
 // runCase runs the real code and the model on the case and returns the differences.
 func runCase(m *Model, c Case) []Diff {
+	d, _ := runCaseR(m, c)
+	return d
+}
+
+// runCaseR also returns the real code's canonical result.
+func runCaseR(m *Model, c Case) ([]Diff, string) {
 	switch c.Kind {
 	case "out":
 		opts := fmtOpts(c.Fmt)
@@ -83,7 +91,7 @@ func runCase(m *Model, c Case) []Diff {
 		}
 		realv := "w=" + hx(w.buf.Bytes()) + " e=" + classify(err)
 		modelv := m.Ask("out " + c.Mode + " " + c.Fmt.enc() + " " + hxList(c.Exts) + " " + b01(c.Fail) + " " + optN(c.WFail) + " " + optN0(c.Short) + " " + c.Doc0())
-		return cmp("output", realv, modelv)
+		return cmp("output", realv, modelv), realv
 	case "outf":
 		var buf bytes.Buffer
 		err := gtree.OutputFromMarkdown(&buf, newReader(c.doc(), c.Fail), encodeOpt(c.Format))
@@ -93,7 +101,10 @@ func runCase(m *Model, c Case) []Diff {
 			realv = "decode-error:" + derr.Error() + " raw=" + hx(buf.Bytes())
 		}
 		modelv := m.Ask("outf " + b01(c.Fail) + " " + c.Doc0())
-		return cmp("formatted:"+c.Format, realv, modelv)
+		if c.ErrOnly && derr == nil {
+			return cmp("formatted:"+c.Format+" (error only)", realv[strings.LastIndex(realv, " e="):], modelv[strings.LastIndex(modelv, " e="):]), realv
+		}
+		return cmp("formatted:"+c.Format, realv, modelv), realv
 	case "rootf":
 		t := parseTreeEnc(c.Tree)
 		var buf bytes.Buffer
@@ -108,8 +119,8 @@ func runCase(m *Model, c Case) []Diff {
 		if derr != nil {
 			realv = "decode-error:" + derr.Error() + " raw=" + hx(buf.Bytes())
 		}
-		modelv := m.Ask("rootf " + c.Tree)
-		return cmp("formatted-root:"+c.Format, realv, modelv)
+		modelv := m.Ask("rootf " + addMirror(t).Enc())
+		return cmp("formatted-root:"+c.Format, realv, modelv), realv
 	case "walk":
 		var vs []string
 		k := 0
@@ -128,8 +139,20 @@ func runCase(m *Model, c Case) []Diff {
 			err = gtree.WalkFromMarkdown(newReader(c.doc(), c.Fail), cb, fmtOpts(c.Fmt)...)
 		}
 		realv := "v=" + showVisits(vs) + " e=" + classify(err)
+		if err == nil && len(c.Texts) > 0 {
+			// direct evaluation of C02's "no silent loss" on the real code
+			have := map[string]bool{}
+			for _, v := range vs {
+				have[strings.SplitN(v, "|", 2)[0]] = true
+			}
+			for _, t := range c.Texts {
+				if !have[hxs(t)] {
+					return []Diff{{What: "silent loss: row text " + t + " accepted (nil) but not among the visited nodes", Real: realv, Model: "every non-blank row is represented"}}, realv
+				}
+			}
+		}
 		modelv := m.Ask("walk " + c.Fmt.enc() + " " + b01(c.Fail) + " " + optN(c.FailAt) + " " + c.Doc0())
-		return cmp("walk", realv, modelv)
+		return cmp("walk", realv, modelv), realv
 	case "rootout":
 		t := parseTreeEnc(c.Tree)
 		w := &faultWriter{failAt: c.WFail, short: c.Short}
@@ -140,8 +163,8 @@ func runCase(m *Model, c Case) []Diff {
 			err = gtree.OutputFromRoot(w, buildRoot(t), fmtOpts(c.Fmt)...)
 		}
 		realv := "w=" + hx(w.buf.Bytes()) + " e=" + classify(err)
-		modelv := m.Ask("rootout " + c.Fmt.enc() + " " + optN(c.WFail) + " " + optN0(c.Short) + " " + c.Tree)
-		return cmp("output-root", realv, modelv)
+		modelv := m.Ask("rootout " + c.Fmt.enc() + " " + optN(c.WFail) + " " + optN0(c.Short) + " " + addMirror(t).Enc())
+		return cmp("output-root", realv, modelv), realv
 	case "rootwalk":
 		t := parseTreeEnc(c.Tree)
 		var vs []string
@@ -161,8 +184,8 @@ func runCase(m *Model, c Case) []Diff {
 			err = gtree.WalkFromRoot(buildRoot(t), cb, fmtOpts(c.Fmt)...)
 		}
 		realv := "v=" + showVisits(vs) + " e=" + classify(err)
-		modelv := m.Ask("rootwalk " + c.Fmt.enc() + " " + optN(c.FailAt) + " " + c.Tree)
-		return cmp("walk-root", realv, modelv)
+		modelv := m.Ask("rootwalk " + c.Fmt.enc() + " " + optN(c.FailAt) + " " + addMirror(t).Enc())
+		return cmp("walk-root", realv, modelv), realv
 	case "rootiter":
 		t := parseTreeEnc(c.Tree)
 		var vs []string
@@ -183,14 +206,14 @@ func runCase(m *Model, c Case) []Diff {
 		}
 		// a consumer that breaks after k items has consumed k items (the (k+1)-th is pulled but dropped)
 		realv := "v=" + showVisits(vs) + " e=" + classify(ierr)
-		modelv := m.Ask("rootiter " + c.Fmt.enc() + " " + optN(c.Break) + " " + c.Tree)
-		return cmp("walkiter-root", realv, modelv)
+		modelv := m.Ask("rootiter " + c.Fmt.enc() + " " + optN(c.Break) + " " + addMirror(t).Enc())
+		return cmp("walkiter-root", realv, modelv), realv
 	case "mkdir":
 		return runMkdir(m, c)
 	case "verify":
 		return runVerify(m, c)
 	}
-	return []Diff{{What: "unknown kind " + c.Kind}}
+	return []Diff{{What: "unknown kind " + c.Kind}}, ""
 }
 
 func optN0(n int) string {
@@ -208,7 +231,7 @@ func (c Case) Doc0() string {
 	return c.Doc
 }
 
-func runMkdir(m *Model, c Case) []Diff {
+func runMkdir(m *Model, c Case) ([]Diff, string) {
 	jail := newJail()
 	defer os.RemoveAll(jail)
 	populate(jail, c.Pre)
@@ -248,7 +271,7 @@ func runMkdir(m *Model, c Case) []Diff {
 	realv := "fs=" + strings.Join(after, ",") + " w=" + hx(written.Bytes()) + " e=" + classify(err)
 	var resp string
 	if c.FromRoot {
-		resp = m.Ask("mkdirroot " + fmtDefault.enc() + " " + hxList(c.Exts) + " " + hxs(target) + " " + b01(c.Dry) + " " + encFS(jail, before) + " " + c.Tree)
+		resp = m.Ask("mkdirroot " + fmtDefault.enc() + " " + hxList(c.Exts) + " " + hxs(target) + " " + b01(c.Dry) + " " + encFS(jail, before) + " " + addMirror(parseTreeEnc(c.Tree)).Enc())
 	} else {
 		resp = m.Ask("mkdir " + fmtDefault.enc() + " " + hxList(c.Exts) + " " + hxs(target) + " " + b01(c.Dry) + " " + encFS(jail, before) + " " + b01(c.Fail) + " " + c.Doc0())
 	}
@@ -257,10 +280,10 @@ func runMkdir(m *Model, c Case) []Diff {
 		parts := strings.SplitN(resp, " ", 2)
 		modelv = "fs=" + stripAmbient(jail, strings.TrimPrefix(parts[0], "fs=")) + " " + parts[1]
 	}
-	return cmp("mkdir", realv, modelv)
+	return cmp("mkdir", realv, modelv), realv
 }
 
-func runVerify(m *Model, c Case) []Diff {
+func runVerify(m *Model, c Case) ([]Diff, string) {
 	jail := newJail()
 	defer os.RemoveAll(jail)
 	populate(jail, c.Pre)
@@ -293,9 +316,9 @@ func runVerify(m *Model, c Case) []Diff {
 	realv := "e=" + classify(err)
 	var modelv string
 	if c.FromRoot {
-		modelv = m.Ask("verifyroot " + hxs(target) + " " + b01(c.Strict) + " " + encFS(jail, before) + " " + c.Tree)
+		modelv = m.Ask("verifyroot " + hxs(target) + " " + b01(c.Strict) + " " + encFS(jail, before) + " " + addMirror(parseTreeEnc(c.Tree)).Enc())
 	} else {
 		modelv = m.Ask("verify " + hxs(target) + " " + b01(c.Strict) + " " + encFS(jail, before) + " " + b01(c.Fail) + " " + c.Doc0())
 	}
-	return append(d, cmp("verify", realv, modelv)...)
+	return append(d, cmp("verify", realv, modelv)...), realv
 }
